@@ -122,6 +122,14 @@ Proof. exact (ge_forced Hp w W0 c s G). Qed.
 Theorem C02_model_bit_and : forall a b r s' cs, run (bit_and a b) s = (inl r, s', cs) -> sat cs -> Sound.isbit p (ew a) -> Sound.isbit p (ew b) ->
   ew r == ew a * ew b /\ Sound.isbit p (ew r).
 Proof. exact (bit_and_forced Hp w s). Qed.
+Theorem C02_model_bit_or : forall a b r s' cs, run (bit_or a b) s = (inl r, s', cs) -> sat cs -> Sound.isbit p (ew a) -> Sound.isbit p (ew b) ->
+  ew r == ew a + ew b - ew a * ew b /\ Sound.isbit p (ew r).
+Proof. exact (bit_or_forced Hp w s). Qed.
+Theorem C02_model_bit_xor : forall a b r s' cs, run (bit_xor a b) s = (inl r, s', cs) -> sat cs -> Sound.isbit p (ew a) -> Sound.isbit p (ew b) ->
+  ew r == ew a + ew b - 2 * ew a * ew b /\ Sound.isbit p (ew r).
+Proof. exact (bit_xor_forced Hp w s). Qed.
+Theorem C02_model_ne : forall x y r s' cs, run (ne x y) s = (inl r, s', cs) -> sat cs -> (ew x == ew y -> ew r == 0) /\ (~ ew x == ew y -> ew r == 1).
+Proof. exact (ne_forced Hp w W0 s). Qed.
 Theorem C02_model_sign : forall x k r s' cs, run (check_positive x k) s = (inl r, s', cs) -> sat cs ->
   (ew r == 1 /\ exists v, 0 <= v < 2 ^ Z.of_nat k /\ ew x == v) \/ (ew r == 0 /\ exists v, - 2 ^ Z.of_nat k <= v < 0 /\ ew x == v).
 Proof. exact (check_positive_forced Hp w W0 s G). Qed.
@@ -136,6 +144,9 @@ Proof. exact (truediv_forced w s G). Qed.
 End C02_model.
 
 Print Assumptions C02_model_lt.
+Print Assumptions C02_model_bit_or.
+Print Assumptions C02_model_bit_xor.
+Print Assumptions C02_model_ne.
 Print Assumptions C02_model_eq.
 Print Assumptions C02_model_to_bits.
 Print Assumptions C02_mul.
